@@ -208,7 +208,7 @@ def oracle(case, impl, spec):
     for n, (a, b) in enumerate(zip(pi, ps)):
         out, ln, slots, it = a
         if ln is None:
-            return 'step %d: %s' % (n, out)
+            return 'step %d: implementation %s' % (n, out.strip() or 'printed no record (crashed before the first one?)')
         if out != b[0]:
             return 'step %d: outcome %s, specification says %s' % (n, out, b[0])
         if ln != b[1]:
